@@ -88,6 +88,13 @@ type fieldPlan struct {
 	// planned abstract alternatives are collected under the same one.
 	env directiveEnv
 
+	// opens[i] names the fragments whose bodies enclose fieldASTs[i], here
+	// and in the enclosing fields. Spreading one of them again below that
+	// occurrence would be a cycle (which validation rejects); planning skips
+	// such a spread so that an unvalidated document cannot make it recurse
+	// forever.
+	opens []map[string]bool
+
 	// sub is set when returnType (after unwrapping NonNull and List)
 	// resolves to a single concrete *Object; abstractAlternatives is
 	// set when it resolves to an Interface or Union; both nil for
@@ -297,7 +304,7 @@ func (p *Plan) planSelectionSet(parentType *Object, selectionSet *ast.SelectionS
 	}
 	sp := &selectionPlan{parentType: parentType}
 	keyed := map[string]int{}
-	p.collectInto(parentType, selectionSet, visitedFragmentNames, sp, keyed, env)
+	p.collectInto(parentType, selectionSet, visitedFragmentNames, sp, keyed, env, nil)
 	if len(sp.fields) == 0 {
 		return nil
 	}
@@ -320,7 +327,7 @@ func (p *Plan) planMergedFieldChildren(fp *fieldPlan) {
 	// Object returns resolve to a single concrete type, so plan their
 	// sub-selection eagerly.
 	if obj, ok := unwrapNamedType(fp.returnType).(*Object); ok {
-		fp.sub = p.planMergedSelectionsForType(obj, fp.fieldASTs, fp.env)
+		fp.sub = p.planMergedSelectionsForType(obj, fp.fieldASTs, fp.env, fp.opens)
 		return
 	}
 	// Abstract returns (Interface / Union) are planned lazily, per
@@ -347,7 +354,7 @@ func (p *Plan) abstractAlternative(fp *fieldPlan, runtimeType *Object) *selectio
 	if sub, ok := fp.abstractAlternatives[runtimeType]; ok {
 		return sub
 	}
-	sub := p.planMergedSelectionsForType(runtimeType, fp.fieldASTs, fp.env)
+	sub := p.planMergedSelectionsForType(runtimeType, fp.fieldASTs, fp.env, fp.opens)
 	fp.abstractAlternatives[runtimeType] = sub
 	return sub
 }
@@ -356,15 +363,19 @@ func (p *Plan) abstractAlternative(fp *fieldPlan, runtimeType *Object) *selectio
 // SelectionSet under one concrete parent type, returning a
 // selectionPlan that mirrors what completeObjectValue's runtime
 // collectFields loop would produce.
-func (p *Plan) planMergedSelectionsForType(parentType *Object, fieldASTs []*ast.Field, env directiveEnv) *selectionPlan {
+func (p *Plan) planMergedSelectionsForType(parentType *Object, fieldASTs []*ast.Field, env directiveEnv, opens []map[string]bool) *selectionPlan {
 	sp := &selectionPlan{parentType: parentType}
 	keyed := map[string]int{}
 	visited := map[string]bool{}
-	for _, f := range fieldASTs {
+	for i, f := range fieldASTs {
 		if f == nil || f.SelectionSet == nil {
 			continue
 		}
-		p.collectInto(parentType, f.SelectionSet, visited, sp, keyed, env)
+		var open map[string]bool
+		if i < len(opens) {
+			open = opens[i]
+		}
+		p.collectInto(parentType, f.SelectionSet, visited, sp, keyed, env, open)
 	}
 	if len(sp.fields) == 0 {
 		return nil
@@ -390,7 +401,7 @@ func (p *Plan) planMergedSelectionsForType(parentType *Object, fieldASTs []*ast.
 // keyed maps responseKey → index in sp.fields so repeat selections
 // of the same response key merge their fieldASTs (matches
 // collectFields's `fields[name] = append(fields[name], selection)`).
-func (p *Plan) collectInto(parentType *Object, selectionSet *ast.SelectionSet, visitedFragmentNames map[string]bool, sp *selectionPlan, keyed map[string]int, env directiveEnv) {
+func (p *Plan) collectInto(parentType *Object, selectionSet *ast.SelectionSet, visitedFragmentNames map[string]bool, sp *selectionPlan, keyed map[string]int, env directiveEnv, open map[string]bool) {
 	for _, iSelection := range selectionSet.Selections {
 		switch sel := iSelection.(type) {
 		case *ast.Field:
@@ -408,6 +419,7 @@ func (p *Plan) collectInto(parentType *Object, selectionSet *ast.SelectionSet, v
 				// validation rules guarantee mergeable selections refer
 				// to the same field).
 				sp.fields[idx].fieldASTs = append(sp.fields[idx].fieldASTs, sel)
+				sp.fields[idx].opens = append(sp.fields[idx].opens, open)
 				continue
 			}
 			fieldName := ""
@@ -421,11 +433,12 @@ func (p *Plan) collectInto(parentType *Object, selectionSet *ast.SelectionSet, v
 				// hasNoFieldDefs branch (skip the response key).
 			}
 			fp := &fieldPlan{
-				responseKey:   responseKey,
-				fieldName:     fieldName,
-				fieldDef:      fieldDef,
-				fieldASTs:     []*ast.Field{sel},
-				env:           env,
+				responseKey: responseKey,
+				fieldName:   fieldName,
+				fieldDef:    fieldDef,
+				fieldASTs:   []*ast.Field{sel},
+				env:         env,
+				opens:       []map[string]bool{open},
 			}
 			if fieldDef != nil {
 				fp.returnType = fieldDef.Type
@@ -442,7 +455,7 @@ func (p *Plan) collectInto(parentType *Object, selectionSet *ast.SelectionSet, v
 				continue
 			}
 			if sel.SelectionSet != nil {
-				p.collectInto(parentType, sel.SelectionSet, visitedFragmentNames, sp, keyed, env)
+				p.collectInto(parentType, sel.SelectionSet, visitedFragmentNames, sp, keyed, env, open)
 			}
 
 		case *ast.FragmentSpread:
@@ -453,7 +466,7 @@ func (p *Plan) collectInto(parentType *Object, selectionSet *ast.SelectionSet, v
 			if sel.Name != nil {
 				fragName = sel.Name.Value
 			}
-			if visitedFragmentNames[fragName] {
+			if visitedFragmentNames[fragName] || open[fragName] {
 				continue
 			}
 			frag, ok := p.fragments[fragName]
@@ -469,7 +482,12 @@ func (p *Plan) collectInto(parentType *Object, selectionSet *ast.SelectionSet, v
 				continue
 			}
 			if fragDef.GetSelectionSet() != nil {
-				p.collectInto(parentType, fragDef.GetSelectionSet(), visitedFragmentNames, sp, keyed, env)
+				inside := make(map[string]bool, len(open)+1)
+				for name := range open {
+					inside[name] = true
+				}
+				inside[fragName] = true
+				p.collectInto(parentType, fragDef.GetSelectionSet(), visitedFragmentNames, sp, keyed, env, inside)
 			}
 		}
 	}
@@ -601,7 +619,8 @@ func planFragmentMatches(schema Schema, typeConditionAST *ast.Named, runtime *Ob
 		return true
 	}
 	conditionalType, err := typeFromAST(schema, typeConditionAST)
-	if err != nil {
+	if err != nil || conditionalType == nil {
+		// unknown type condition (the document was not validated)
 		return false
 	}
 	if conditionalType == runtime {
